@@ -52,8 +52,8 @@ mod verif_demo_xlsxwb_table_meta_overflow {
         assert!(panics(r#"ref="A1:B1" headerRowCount="0" insertRow="1""#));
         // `dims.start.0 += header_row_count` with a declared count of u32::MAX
         assert!(panics(r#"ref="A2:B3" headerRowCount="4294967295""#));
-        // `dims.end.0 -= header_row_count` with header_row_count larger than the end row
-        assert!(panics(r#"ref="A1:B2" headerRowCount="5" totalsRowCount="1""#));
+        // `dims.end.0 -= totals_row_count` with a declared count larger than the end row
+        assert!(panics(r#"ref="A1:B2" headerRowCount="5" totalsRowCount="5""#));
         // control
         assert!(!panics(r#"ref="A1:B4" totalsRowCount="1""#));
     }
